@@ -2255,10 +2255,28 @@ func (e *Env) LE(v ssa.Value) LE {
 					}
 				}
 			}
+			if _, isFA := v.X.(*ssa.FieldAddr); isFA && isInteger(v.Type()) {
+				if lo, hi, ok := e.tableConstRange(v); ok {
+					a := e.atomOf(v)
+					for t := range a.c {
+						atomRange[t] = [2]int64{lo, hi}
+					}
+					return a
+				}
+			}
 		}
 	case *ssa.Field:
 		if w, we := e.structField(v.X, v.Field, 0); w != nil {
 			return we.LE(w)
+		}
+		if isInteger(v.Type()) {
+			if lo, hi, ok := e.tableConstRange(v); ok {
+				a := e.atomOf(v)
+				for t := range a.c {
+					atomRange[t] = [2]int64{lo, hi}
+				}
+				return a
+			}
 		}
 	case *ssa.Phi:
 		t := e.Term(v)
